@@ -1,6 +1,7 @@
 package main
 
 import (
+	"io"
 	"bytes"
 	"fmt"
 	"os"
@@ -11,6 +12,7 @@ import (
 	"time"
 
 	wt "github.com/hnakamur/whispertool"
+	"github.com/hnakamur/whispertool/cmd"
 )
 
 // Hostile inputs (C15) are handled in a child process with an address-space limit and a
@@ -21,6 +23,16 @@ const childASLimit = 3 << 30 // bytes of address space the child may use
 const childTimeout = 20 * time.Second
 
 func childMain(args []string) {
+	if args[0] == "server" {
+		// the real "whispertool server" on args[1] serving args[2]; ends when the parent closes its stdin
+		go func() {
+			io.Copy(io.Discard, os.Stdin)
+			os.Exit(0)
+		}()
+		c := &cmd.ServerCommand{Addr: args[1], BaseDir: args[2]}
+		fmt.Println(c.Execute())
+		return
+	}
 	if args[0] == "holdopen" {
 		// holds a handle (and its flock) on a file for some milliseconds
 		db, err := wt.Open(args[1])
